@@ -110,6 +110,7 @@ fn hash_inventory(repo: &Path) -> Result<String, String> {
     }
     let mut aliases: Vec<(String, String, String)> = Vec::new();
     let mut std_users: Vec<String> = Vec::new();
+    let mut default_sites: Vec<(String, usize)> = Vec::new();
     for f in &files {
         let rel = f.strip_prefix(repo).unwrap().to_string_lossy().to_string();
         let fname = f.file_name().unwrap().to_string_lossy().to_string();
@@ -122,6 +123,8 @@ fn hash_inventory(repo: &Path) -> Result<String, String> {
             aliases: Vec<(String, String)>,
             std_hash: bool,
             in_test: usize,
+            in_alias: usize,
+            default_sites: usize,
         }
         impl<'ast> Visit<'ast> for V {
             fn visit_item_mod(&mut self, m: &'ast syn::ItemMod) {
@@ -143,7 +146,9 @@ fn hash_inventory(repo: &Path) -> Result<String, String> {
                 if ["HashMap<", "HashSet<", "IndexMap<", "IndexSet<", "DashMap<"].iter().any(|k| rhs.contains(k)) {
                     self.aliases.push((t.ident.to_string(), rhs));
                 }
+                self.in_alias += 1;
                 syn::visit::visit_item_type(self, t);
+                self.in_alias -= 1;
             }
             fn visit_item_use(&mut self, u: &'ast syn::ItemUse) {
                 use quote::ToTokens;
@@ -154,6 +159,18 @@ fn hash_inventory(repo: &Path) -> Result<String, String> {
                 if self.in_test == 0 && (s.contains("RandomState") || s.contains("ahash")) {
                     self.std_hash = true;
                 }
+                // importing a library hash container directly brings its DEFAULT (seeded) hasher
+                if self.in_test == 0 {
+                    for lib in ["hashbrown::", "indexmap::", "dashmap::"] {
+                        if s.contains(lib) {
+                            for name in ["HashMap", "HashSet", "IndexMap", "IndexSet", "DashMap"] {
+                                if s.contains(name) {
+                                    self.default_sites += 1;
+                                }
+                            }
+                        }
+                    }
+                }
             }
             fn visit_path(&mut self, p: &'ast syn::Path) {
                 use quote::ToTokens;
@@ -163,13 +180,26 @@ fn hash_inventory(repo: &Path) -> Result<String, String> {
                 {
                     self.std_hash = true;
                 }
+                // a qualified use of a library hash container outside the alias definitions:
+                // counts as a default-hasher site unless it names the fixed hasher itself
+                if self.in_test == 0 && self.in_alias == 0 {
+                    let qualified = ["hashbrown::HashMap", "hashbrown::HashSet", "indexmap::IndexMap", "indexmap::IndexSet", "dashmap::DashMap"]
+                        .iter()
+                        .any(|q| s.starts_with(q));
+                    if qualified && !s.contains("FxHasher") && !s.contains("BuildHasher") {
+                        self.default_sites += 1;
+                    }
+                }
                 syn::visit::visit_path(self, p);
             }
         }
-        let mut v = V { aliases: vec![], std_hash: false, in_test: 0 };
+        let mut v = V { aliases: vec![], std_hash: false, in_test: 0, in_alias: 0, default_sites: 0 };
         v.visit_file(&file);
         for (n, rhs) in v.aliases {
             aliases.push((rel.clone(), n, rhs));
+        }
+        if v.default_sites > 0 {
+            default_sites.push((rel.clone(), v.default_sites));
         }
         if v.std_hash {
             std_users.push(rel);
@@ -191,6 +221,9 @@ fn hash_inventory(repo: &Path) -> Result<String, String> {
     out.push_str("].\n");
     out.push_str("(* non-test files that name std::collections::Hash{Map,Set} / RandomState / ahash *)\nDefinition std_hash_users : list string := [");
     out.push_str(&std_users.iter().map(|s| format!("\"{}\"%string", s)).collect::<Vec<_>>().join("; "));
+    out.push_str("].\n");
+    out.push_str("(* non-test files that use a library hash container with its DEFAULT (randomly seeded) hasher: imports + qualified uses outside the alias definitions, with their number *)\nDefinition default_hasher_sites : list (string * nat) := [");
+    out.push_str(&default_sites.iter().map(|(f, n)| format!("(\"{}\"%string, {})", f, n)).collect::<Vec<_>>().join("; "));
     out.push_str("].\n");
     Ok(out)
 }
